@@ -146,6 +146,24 @@ Example C18_first_occurrence :
   = {| g_sl := 3; g_sc := 5; g_el := 3; g_ec := 6 |}.
 Proof. exact first_occurrence_example. Qed.
 
+(* Validate() called again on the same pipeline: the oracle [prop_C18_rounds] (every later round
+   reports the diagnostics of the first one, as a multiset) forces every round to have as many
+   diagnostics as the first, and refuses any round that reports something more *)
+Theorem C18_rounds_same_count : forall first later,
+  prop_C18_rounds first later = true -> forall r, In r later -> List.length r = List.length first.
+Proof. exact rounds_same_count. Qed.
+
+Theorem C18_rounds_refuse_additions : forall first extra before after,
+  extra <> [] -> prop_C18_rounds first (before ++ (first ++ extra) :: after) = false.
+Proof. exact rounds_refuse_additions. Qed.
+
+Example C18_rounds_nonvacuous :
+  prop_C18_rounds demo_round [rev demo_round; demo_round] = true
+  /\ prop_C18_rounds_nodup [rev demo_round; demo_round] = true
+  /\ prop_C18_rounds demo_round [demo_round; demo_round ++ [demo_od 24 10 "route conflict"]] = false
+  /\ prop_C18_rounds_nodup [demo_round ++ [demo_od 24 10 "route conflict"]] = false.
+Proof. exact rounds_example. Qed.
+
 Print Assumptions C18_value_range_inside.
 Print Assumptions C18_url_param_range_inside.
 Print Assumptions C18_value_range_covers.
@@ -165,3 +183,6 @@ Print Assumptions C18_first_occurrence.
 Print Assumptions C18_rets_range_encloses.
 Print Assumptions C18_rets_range_inside.
 Print Assumptions C18_rets_range_wrapped.
+Print Assumptions C18_rounds_same_count.
+Print Assumptions C18_rounds_refuse_additions.
+Print Assumptions C18_rounds_nonvacuous.
